@@ -236,6 +236,8 @@ pub async fn run_script_ticks(sc: &Script, max_ticks: u32) -> Option<Outcome> {
         c.private_key = scert.private_key.clone(); c
     } else { scert };
     let mut s = Recd::new(false, scert, exp_s.clone()).await;
+    // scripts in which an endpoint must refuse: watch what its state channel shows meanwhile
+    let spies = if sc.ce == 'b' || sc.rules.iter().any(|r| matches!(r.act, Act::ForgeFinishedBad | Act::InsertCert | Act::Impostor | Act::ImpostorChain | Act::CertOther | Act::CertOtherResign | Act::FlipSig | Act::FlipKey)) { Some(c.ep.spy()) } else { None };
     let (c_src, s_src) = (c.ep.sink_addr, s.ep.sink_addr);
     let mut q_cs: VecDeque<Vec<u8>> = VecDeque::new();
     let mut q_sc: VecDeque<Vec<u8>> = VecDeque::new();
@@ -358,6 +360,8 @@ pub async fn run_script_ticks(sc: &Script, max_ticks: u32) -> Option<Outcome> {
     // the watch channel (what SCTP / SRTP wait on) must show what get_state() shows after every step
     for x in [&c, &s] { for o in &x.outs { if let Some(st) = o.split(',').next() { if st.contains('!') {
         fails.push((format!("state:watch-channel-differs-from-state:{st}"), text.clone())); } } } }
+    if let Some(spy) = spies { if spy.saw_connected() && !matches!(c.ep.letter(), 'C' | 'X') {
+        fails.push((format!("state:watch-channel-showed-connected-but-handshake-ended-{}", c.ep.letter()), text.clone())); } }
     if forged && c.ep.letter() != 'F' { fails.push((format!("role:client:wrong-verify-data-not-rejected:ended-{}", c.ep.letter()), text.clone())); }
     if inserted_cert && c.expected.is_some() && c.ep.letter() != 'F' {
         fails.push((format!("role:client:non-matching-certificate-in-sequence-not-rejected:ended-{}", c.ep.letter()), text.clone()));
@@ -420,6 +424,9 @@ pub fn scripts(thorough: bool, rng: &mut Rng) -> Vec<Script> {
         for x in rng.pick(&tamper).clone() { if !rules.iter().any(|y| y.from_client == x.from_client && y.typ == x.typ) { rules.push(x); } }
         v.push(Script { ce: *rng.pick(&['n', 'o', 'b']), se: *rng.pick(&['n', 'o', 'b']), rules });
     }
+    // the one script that makes the client's Finished check fail, several more times: the watch-channel spy
+    // catches a transiently published state only with some probability per run
+    for _ in 0..(if thorough { 40 } else { 10 }) { v.push(Script { ce: 'o', se: 'n', rules: vec![r(false, 20, Act::ForgeFinishedBad)] }); }
     v
 }
 
